@@ -76,6 +76,11 @@ func runOne(p *Prop, line string) (out Outcome, err error) {
 	return p.Run(op, toks), nil
 }
 
+// currentProp is the property whose check is running: C08 and C09 reuse the per-codec runners of other
+// properties, and a clause that is theirs alone (e.g. "fragments are owned copies" for the payloaders C16 does
+// not ask it of) is judged only under them
+var currentProp string
+
 func main() {
 	if len(os.Args) < 2 {
 		fmt.Fprintln(os.Stderr, "usage: verifharness run|exec ...")
@@ -89,6 +94,7 @@ func main() {
 	out := fs.String("out", ".", "output directory")
 	casesFile := fs.String("cases", "", "literal case file (exec mode, or prepended in run mode)")
 	_ = fs.Parse(os.Args[2:])
+	currentProp = *propID
 	p := registry[*propID]
 	if p == nil {
 		fmt.Fprintln(os.Stderr, "unknown property", *propID)
